@@ -324,3 +324,60 @@ Qed.
 
 Lemma apply_perm_length {A} (pi : list nat) (l : list A) : length (apply_perm pi l) = length l.
 Proof. apply Permutation_length, apply_perm_Permutation. Qed.
+
+(* ------------------------------------------------------------------ pairs of byte strings, first component first *)
+(* the comparator of sortedMapKeys after the tie-break: by string form, then by type name *)
+Definition bytes2_leb (a b : bytes * bytes) : bool :=
+  if bytes_eqb (fst a) (fst b) then bytes_leb (snd a) (snd b) else bytes_leb (fst a) (fst b).
+
+Lemma bytes2_leb_total (a b : bytes * bytes) : bytes2_leb a b = true \/ bytes2_leb b a = true.
+Proof.
+  unfold bytes2_leb. destruct (bytes_eqb (fst a) (fst b)) eqn:E.
+  - apply bytes_eqb_eq in E. rewrite E, bytes_eqb_refl. apply bytes_leb_total.
+  - assert (E' : bytes_eqb (fst b) (fst a) = false).
+    { destruct (bytes_eqb (fst b) (fst a)) eqn:E2; [|reflexivity]. apply bytes_eqb_eq in E2. rewrite E2, bytes_eqb_refl in E. discriminate. }
+    rewrite E'. apply bytes_leb_total.
+Qed.
+
+Lemma bytes2_leb_antisym (a b : bytes * bytes) : bytes2_leb a b = true -> bytes2_leb b a = true -> a = b.
+Proof.
+  unfold bytes2_leb. destruct a as [a1 a2], b as [b1 b2]. simpl.
+  destruct (bytes_eqb a1 b1) eqn:E.
+  - apply bytes_eqb_eq in E. subst b1. rewrite bytes_eqb_refl. intros H1 H2. f_equal. apply bytes_leb_antisym; assumption.
+  - assert (E' : bytes_eqb b1 a1 = false).
+    { destruct (bytes_eqb b1 a1) eqn:E2; [|reflexivity]. apply bytes_eqb_eq in E2. subst. rewrite bytes_eqb_refl in E. discriminate. }
+    rewrite E'. intros H1 H2. assert (a1 = b1) by (apply bytes_leb_antisym; assumption). subst. rewrite bytes_eqb_refl in E. discriminate.
+Qed.
+
+Lemma bytes_eqb_false (a b : bytes) : bytes_eqb a b = false <-> a <> b.
+Proof.
+  split.
+  - intros H E. apply bytes_eqb_eq in E. congruence.
+  - intro H. destruct (bytes_eqb a b) eqn:E; [apply bytes_eqb_eq in E; contradiction|reflexivity].
+Qed.
+
+Lemma bytes2_leb_trans (a b c : bytes * bytes) : bytes2_leb a b = true -> bytes2_leb b c = true -> bytes2_leb a c = true.
+Proof.
+  unfold bytes2_leb. destruct a as [a1 a2], b as [b1 b2], c as [c1 c2]. simpl.
+  destruct (bytes_eqb a1 b1) eqn:Eab.
+  - apply bytes_eqb_eq in Eab. subst b1.
+    destruct (bytes_eqb a1 c1) eqn:Eac; intros H1 H2; [eapply bytes_leb_trans; eassumption|exact H2].
+  - destruct (bytes_eqb b1 c1) eqn:Ebc.
+    + apply bytes_eqb_eq in Ebc. subst c1. rewrite Eab. intros H1 _. exact H1.
+    + intros H1 H2.
+      assert (H13 : bytes_leb a1 c1 = true) by (eapply bytes_leb_trans; eassumption).
+      destruct (bytes_eqb a1 c1) eqn:Eac; [|exact H13].
+      apply bytes_eqb_eq in Eac. subst c1.
+      assert (a1 = b1) by (apply bytes_leb_antisym; assumption). subst. rewrite bytes_eqb_refl in Eab. discriminate.
+Qed.
+
+Theorem sort_by_key2_canonical {A} (key : A -> bytes * bytes) (l l' : list A) :
+  Permutation l l' -> NoDup (map key l) -> sp_isort bytes2_leb key l = sp_isort bytes2_leb key l'.
+Proof.
+  intros Hp Hnd. apply sp_isort_canonical.
+  - apply bytes2_leb_total.
+  - apply bytes2_leb_trans.
+  - apply bytes2_leb_antisym.
+  - exact Hp.
+  - exact Hnd.
+Qed.
